@@ -3,6 +3,7 @@
 From PGV Require Import Base.Bytes Base.GoStr Base.Utf8.
 From PGV Require Import Extracted.SourceConst.
 From PGV Require Import Model.RuleText Spec.RuleTextSpec Proofs.RuleTextProofs Proofs.C14Final Run.Run_C14.
+From PGV Require Import Base.MiniGo Extracted.SourceFns Model.GoParse Proofs.GoParseProofs.
 
 (* Splitting loses no characters: the pieces joined by the separator give back the text, up to
    one trailing separator.  For every byte string and every separator byte other than the quote
@@ -55,3 +56,12 @@ Example C14_hypotheses_satisfiable :
   forallb (fun x => wf_rule (to_rule x)) rules = true /\ field_ok (s2b "Name") /\
   round_model (s2b "Name") rules = map (fun x => parsed_spec ExplainEn ExplainZh (to_rule x)) rules.
 Proof. vm_compute. repeat split; congruence. Qed.
+
+(* FROM THE SOURCE TEXT.  fn_ParseValidNameKV is the go/ast syntax tree of ParseValidNameKV
+   (valid/common.go), regenerated from /repo on every run (Extracted/SourceFns.v).  Under the semantics
+   of Model/GoParse.v (strings.Index, slices with their run-time bounds, len, IncludeZhRe.MatchString,
+   string concatenation) it computes, on EVERY byte string, exactly the model's parse_kv — to which the
+   round-trip theorems above apply — and it never slices out of range. *)
+Theorem C14_parser_from_source : forall s : str, run_parse fn_ParseValidNameKV s = Some (parse_kv s).
+Proof. exact parse_from_source. Qed.
+Print Assumptions C14_parser_from_source.
